@@ -19,10 +19,10 @@ import (
 
 type walkInfo struct {
 	cut      int
-	exitPos  []string // exit positions of the pointers used after the loop, sorted
-	slotExit map[string]lin // exit position of every pointer slot ("k.j")
-	touched  []string // positions of every pointer expression (pointer, pointer.next, …) the code after the loop mentions
-	valuePos []string // positions of the pointers whose value field the loop's exit paths access
+	exitPos  []string            // exit positions of the pointers used after the loop, sorted
+	slotExit map[string]lin      // exit position of every pointer slot ("k.j")
+	touched  []string            // positions of every pointer expression (pointer, pointer.next, …) the code after the loop mentions
+	valuePos []string            // positions of the pointers whose value field the loop's exit paths access
 	succ     map[string][]string // successor cut → position of each value the exit paths hand over ("" = not a walked pointer)
 	bound    string
 	describe string
@@ -545,78 +545,200 @@ func ruleR39(c *Ctx) *RuleResult {
 				n++
 				// a path that starts at a loop header also knows what every path into that loop knows (parameters and the
 				// size are not written by the search loops)
-				g := &GC{From: g0.From, Guards: append(append([]*Term(nil), g0.Guards...), entryKnowledge(gc, g0.From, 0)...), Effects: g0.Effects, Exit: g0.Exit}
-				for _, f := range []string{"first", "last"} {
-					stored, known := false, false
-					for _, ef := range g.Effects {
-						if storeToField(ef, f) && ef.Args[0].Args[0].String() == "p:0" {
-							stored = true
-						}
+				gStart := &GC{From: g0.From, Guards: append(append([]*Term(nil), g0.Guards...), entryKnowledge(gc, g0.From, 0)...), Effects: g0.Effects, Exit: g0.Exit}
+				// the counter may be decremented before a walk: the removing path is then this path continued through the
+				// loop to each return (the rounds of the walk themselves neither store nor compare the ends)
+				var composites []*GC
+				var extend func(g *GC, depth int)
+				extend = func(g *GC, depth int) {
+					if g.Exit.Op != "goto" || depth > 3 {
+						composites = append(composites, g)
+						return
 					}
-					for _, a := range g.Guards {
-						if (a.Op == "!=" || a.Op == "==") && len(a.Args) == 2 {
-							for _, x := range a.Args {
-								if x.Op == "load" && len(x.Args) == 1 && x.Args[0].Op == "fa" && x.Args[0].Leaf == f && x.Args[0].Args[0].String() == "p:0" {
-									known = true
+					k := atoiOr(g.Exit.Leaf, -1)
+					n := 0
+					for _, h := range gc.GCs {
+						if h.From != k || (h.Exit.Op == "goto" && h.Exit.Leaf == g.Exit.Leaf) {
+							continue
+						}
+						n++
+						extend(&GC{From: g.From, Guards: append(append([]*Term(nil), g.Guards...), h.Guards...), Effects: append(append([]*Term(nil), g.Effects...), h.Effects...), Exit: h.Exit}, depth+1)
+					}
+					if n == 0 {
+						composites = append(composites, g)
+					}
+				}
+				extend(gStart, 0)
+				for _, g := range composites {
+					for _, f := range []string{"first", "last"} {
+						stored, known := false, false
+						for _, ef := range g.Effects {
+							if storeToField(ef, f) && ef.Args[0].Args[0].String() == "p:0" {
+								stored = true
+							}
+						}
+						for _, a := range g.Guards {
+							if (a.Op == "!=" || a.Op == "==") && len(a.Args) == 2 {
+								for _, x := range a.Args {
+									if x.Op == "load" && len(x.Args) == 1 && x.Args[0].Op == "fa" && x.Args[0].Leaf == f && x.Args[0].Args[0].String() == "p:0" {
+										known = true
+									}
 								}
 							}
 						}
-					}
-					// removal by index knows the end from the index as well: index != 0 / index != size-1
-					for _, a := range g.Guards {
-						s := noEpoch(a)
-						if f == "first" && (strings.Contains(s, "(!= #:0 p:1)") || strings.Contains(s, "(< #:0 p:1)")) {
-							known = true
-						}
-						if f == "last" && (strings.Contains(s, "(!= (- (load (fa:size p:0)) #:1) p:1)") || strings.Contains(s, "(!= p:1 (- (load (fa:size p:0)) #:1))")) {
-							known = true
-						}
-					}
-					// the element known to be the *other* end touches this end only when the list becomes empty (R27's business):
-					// removing the head never moves last otherwise, removing the tail never moves first
-					other := "first"
-					if f == "first" {
-						other = "last"
-					}
-					for _, a := range g.Guards {
-						if a.Op != "==" || len(a.Args) != 2 {
-							continue
-						}
-						x, y := a.Args[0], a.Args[1]
-						isOtherEnd := func(t *Term) bool {
-							return t.Op == "load" && len(t.Args) == 1 && t.Args[0].Op == "fa" && t.Args[0].Leaf == other && t.Args[0].Args[0].String() == "p:0"
-						}
-						if isOtherEnd(x) || isOtherEnd(y) {
-							known = true
-						}
-						if x.String() == "#:nil" {
-							// no predecessor (head) / no successor (tail)
-							if f == "last" && (y.Op == "φ" || (y.Op == "load" && y.Args[0].Op == "fa" && y.Args[0].Leaf == "prev")) {
+						// removal by index knows the end from the index as well: index != 0 / index != size-1
+						for _, a := range g.Guards {
+							s := noEpoch(a)
+							if f == "first" && (strings.Contains(s, "(!= #:0 p:1)") || strings.Contains(s, "(< #:0 p:1)")) {
 								known = true
 							}
-							if f == "first" && y.Op == "load" && y.Args[0].Op == "fa" && y.Args[0].Leaf == "next" {
+							if f == "last" && (strings.Contains(s, "(!= (- (load (fa:size p:0)) #:1) p:1)") || strings.Contains(s, "(!= p:1 (- (load (fa:size p:0)) #:1))")) {
 								known = true
 							}
 						}
-						if f == "last" && x.String() == "#:0" && y.String() == "p:1" {
-							known = true
+						// the element known to be the *other* end touches this end only when the list becomes empty (R27's business):
+						// removing the head never moves last otherwise, removing the tail never moves first
+						other := "first"
+						if f == "first" {
+							other = "last"
+						}
+						for _, a := range g.Guards {
+							if a.Op != "==" || len(a.Args) != 2 {
+								continue
+							}
+							x, y := a.Args[0], a.Args[1]
+							isOtherEnd := func(t *Term) bool {
+								return t.Op == "load" && len(t.Args) == 1 && t.Args[0].Op == "fa" && t.Args[0].Leaf == other && t.Args[0].Args[0].String() == "p:0"
+							}
+							if isOtherEnd(x) || isOtherEnd(y) {
+								known = true
+							}
+							if x.String() == "#:nil" {
+								// no predecessor (head) / no successor (tail)
+								if f == "last" && (y.Op == "φ" || (y.Op == "load" && y.Args[0].Op == "fa" && y.Args[0].Leaf == "prev")) {
+									known = true
+								}
+								if f == "first" && y.Op == "load" && y.Args[0].Op == "fa" && y.Args[0].Leaf == "next" {
+									known = true
+								}
+							}
+							if f == "last" && x.String() == "#:0" && y.String() == "p:1" {
+								known = true
+							}
+						}
+						// an element with a predecessor is not the first one; one with a successor is not the last one
+						for _, a := range g.Guards {
+							if a.Op != "!=" || len(a.Args) != 2 || a.Args[0].String() != "#:nil" {
+								continue
+							}
+							y := a.Args[1]
+							if f == "first" && (y.Op == "φ" || (y.Op == "load" && y.Args[0].Op == "fa" && y.Args[0].Leaf == "prev")) {
+								known = true
+							}
+							if f == "last" && y.Op == "load" && y.Args[0].Op == "fa" && y.Args[0].Leaf == "next" {
+								known = true
+							}
+						}
+						if !stored && !known {
+							bad = append(bad, fmt.Sprintf("a removing path neither stores %s nor knows that the removed element is not the %s one: %s", f, f, trunc(guardsString(g), 240)))
 						}
 					}
-					// an element with a predecessor is not the first one; one with a successor is not the last one
-					for _, a := range g.Guards {
-						if a.Op != "!=" || len(a.Args) != 2 || a.Args[0].String() != "#:nil" {
+				}
+			}
+			// HEADTAIL: making the head the tail (last = first) or the tail the head (first = last) on a path that allocates
+			// nothing is right only for a list of at most one element — the path must know its size
+			for _, g := range gc.GCs {
+				alloc := false
+				for _, ef := range g.Effects {
+					if isStore(ef) && ef.Args[0].Op == "fa" && ef.Args[0].Args[0].Op == "new" {
+						alloc = true
+					}
+				}
+				if alloc {
+					continue
+				}
+				for i, ef := range g.Effects {
+					for _, pr := range [][2]string{{"last", "first"}, {"first", "last"}} {
+						if !(storeToField(ef, pr[0]) && ef.Args[0].Args[0].String() == "p:0") {
 							continue
 						}
-						y := a.Args[1]
-						if f == "first" && (y.Op == "φ" || (y.Op == "load" && y.Args[0].Op == "fa" && y.Args[0].Leaf == "prev")) {
-							known = true
+						v := ef.Args[1]
+						if !(v.Op == "load" && len(v.Args) == 1 && v.Args[0].Op == "fa" && v.Args[0].Leaf == pr[1] && v.Args[0].Args[0].String() == "p:0") {
+							continue
 						}
-						if f == "last" && y.Op == "load" && y.Args[0].Op == "fa" && y.Args[0].Leaf == "next" {
-							known = true
+						n++
+						// size knowledge: a guard `size@ver == c` (or <= c) with a dated version, moved by the counter stores
+						// that follow it on this path
+						deltaAt := func(upto int) int {
+							d := 0
+							for _, e2 := range g.Effects[:upto] {
+								if storeToField(e2, "size") && e2.Args[0].Args[0].String() == "p:0" && len(e2.Args[1].Args) == 2 {
+									switch {
+									case e2.Args[1].Op == "+" && e2.Args[1].Args[0].String() == "#:1":
+										d++
+									case e2.Args[1].Op == "-" && e2.Args[1].Args[1].String() == "#:1":
+										d--
+									default:
+										d += 1000
+									}
+								}
+							}
+							return d
 						}
-					}
-					if !stored && !known {
-						bad = append(bad, fmt.Sprintf("a removing path neither stores %s nor knows that the removed element is not the %s one: %s", f, f, trunc(guardsString(g), 240)))
+						knows := false
+						for _, a := range g.Guards {
+							if len(a.Args) != 2 || (a.Op != "==" && a.Op != "<=" && a.Op != "<") {
+								continue
+							}
+							var ld *Term
+							var cst int64
+							okc := false
+							for j := 0; j < 2; j++ {
+								x, y := a.Args[j], a.Args[1-j]
+								if x.Op == "load" && len(x.Args) == 1 && x.Args[0].Op == "fa" && x.Args[0].Leaf == "size" && x.Args[0].Args[0].String() == "p:0" {
+									if k, ok := y.constInt(); ok && (a.Op == "==" || j == 0) {
+										ld, cst, okc = x, k, true
+										if a.Op == "<" {
+											cst--
+										}
+									}
+								}
+							}
+							if !okc {
+								continue
+							}
+							m := verRe.FindStringSubmatch(ld.Leaf)
+							if m == nil {
+								continue // read before the loop: how many rounds have run since is unknown
+							}
+							// number of size stores before that load = its f stamp
+							nBefore := atoiOr(m[2], 0)
+							dBefore := 0
+							seen := 0
+							for idx2, e2 := range g.Effects {
+								if storeToField(e2, "size") && e2.Args[0].Args[0].String() == "p:0" {
+									seen++
+									if seen == nBefore {
+										dBefore = deltaAt(idx2 + 1)
+									}
+								}
+							}
+							if int(cst)+deltaAt(i+1)-dBefore <= 1 && g.From == 0 || (g.From != 0 && nBefore >= 0 && int(cst)+deltaAt(i+1)-dBefore <= 1 && ld.Leaf != "pre") {
+								knows = true
+							}
+						}
+						// or: the node has no neighbour (first.next == nil / last.prev == nil)
+						for _, a := range g.Guards {
+							if a.Op == "==" && len(a.Args) == 2 && a.Args[0].String() == "#:nil" {
+								s := noEpoch(a.Args[1])
+								if s == "(load (fa:next (load (fa:first p:0))))" || s == "(load (fa:prev (load (fa:last p:0))))" {
+									knows = true
+								}
+							}
+						}
+						if !knows {
+							bad = append(bad, fmt.Sprintf("%s = %s on a path that links no new element and does not know that the list has at most one element (the %s of a longer list is not its %s): %s", pr[0], pr[1], pr[1], pr[0], trunc(g.String(), 240)))
+						}
 					}
 				}
 			}
@@ -633,7 +755,6 @@ func ruleR39(c *Ctx) *RuleResult {
 	}
 	return r
 }
-
 
 // entryKnowledge: guard atoms over parameters and the size field that hold on every path entering cut k from outside
 // (intersection over the entering paths, transitively through earlier cuts).
